@@ -1,0 +1,41 @@
+// Copyright 2015-2024 Swim Inc.
+//
+// Licensed under the Apache License, Version 2.0 (the "License");
+// you may not use this file except in compliance with the License.
+// You may obtain a copy of the License at
+//
+//     http://www.apache.org/licenses/LICENSE-2.0
+//
+// Unless required by applicable law or agreed to in writing, software
+// distributed under the License is distributed on an "AS IS" BASIS,
+// WITHOUT WARRANTIES OR CONDITIONS OF ANY KIND, either express or implied.
+// See the License for the specific language governing permissions and
+// limitations under the License.
+
+//! Thin, add-only wrappers exposing crate-private components to the external verification
+//! harness. Only compiled with the `verif_hooks` feature; nothing here changes behaviour.
+
+/// Inactivity vote coordination.
+pub mod timeout_coord {
+    pub use crate::timeout_coord::{
+        agent_timeout_coordinator, downlink_timeout_coordinator, Receiver, VoteResult, Voter,
+    };
+
+    /// Coordinator for `n` parties (2 to 8) as a vector of voters.
+    pub fn coordinator(n: usize) -> Option<(Vec<Voter>, Receiver)> {
+        use crate::timeout_coord::multi_party_coordinator as mk;
+        fn v<const N: usize>((a, r): ([Voter; N], Receiver)) -> (Vec<Voter>, Receiver) {
+            (a.into_iter().collect(), r)
+        }
+        match n {
+            2 => Some(v(mk::<2>())),
+            3 => Some(v(mk::<3>())),
+            4 => Some(v(mk::<4>())),
+            5 => Some(v(mk::<5>())),
+            6 => Some(v(mk::<6>())),
+            7 => Some(v(mk::<7>())),
+            8 => Some(v(mk::<8>())),
+            _ => None,
+        }
+    }
+}
